@@ -571,6 +571,58 @@ Section Proofs.
   Qed.
 End Proofs.
 
+Lemma consume_missing lower exact dict c :
+  lookup_author lower exact dict c = None -> consume lower exact dict c = 262142%Z.
+Proof. unfold consume. intros ->. reflexivity. Qed.
+
+(* ---------- the executable statement of description exactness used by the replay is sound ---------- *)
+Lemma str_list_eqb_eq a : forall b, str_list_eqb a b = true -> a = b.
+Proof.
+  induction a as [|x a IH]; intros [|y b]; simpl; try discriminate; [reflexivity|].
+  intros H. apply andb_true_iff in H. destruct H as [H1 H2]. apply str_eqb_eq in H1. f_equal; auto.
+Qed.
+
+Lemma all_pairs_keys_nodup (dict : list (str * nat)) :
+  all_pairs (fun x y => negb (str_eqb (fst x) (fst y))) dict = true -> keys_nodup dict.
+Proof.
+  unfold keys_nodup. induction dict as [|[k v] r IH]; simpl; intros H; [constructor|].
+  apply andb_true_iff in H. destruct H as [H1 H2]. constructor; [|apply IH; assumption].
+  intros Hin. apply in_map_iff in Hin. destruct Hin as [[k' v'] [E Hin]]. cbn [fst] in E. subst k'.
+  rewrite forallb_forall in H1. specialize (H1 _ Hin). cbn [fst] in H1. rewrite str_eqb_refl in H1. discriminate.
+Qed.
+
+Lemma keys_of_In (dict : list (str * nat)) d k : keys_nodup dict -> (In k (keys_of dict d) <-> sget dict k = Some d).
+Proof.
+  intros Hnd. unfold keys_of. rewrite in_map_iff. split.
+  - intros [[k' v] [E H]]. cbn [fst] in E. subst k'. apply filter_In in H. destruct H as [H1 H2].
+    cbn [snd] in H2. apply Nat.eqb_eq in H2. subst v. apply In_sget_nodup; assumption.
+  - intros H. apply sget_In in H. exists (k, d). split; [reflexivity|]. apply filter_In.
+    split; [assumption|apply Nat.eqb_refl].
+Qed.
+
+Theorem description_okb_sound lower cs dict rev : description_okb lower false cs dict rev = true ->
+  (forall k d, sget dict k = Some d -> key_used lower false cs k = true /\ d < length rev) /\
+  forall d, d < length rev -> exists ns es,
+    nth d rev [] = join ns ++ bar :: join es /\
+    StronglySorted (leR str_ltb) ns /\ StronglySorted (leR str_ltb) es /\
+    (forall k, In k ns <-> sget dict k = Some d /\ fst (first_role lower cs k) = true) /\
+    (forall k, In k es <-> sget dict k = Some d /\ snd (first_role lower cs k) = true).
+Proof.
+  unfold description_okb. intros H. apply andb_true_iff in H. destruct H as [H H3].
+  apply andb_true_iff in H. destruct H as [H1 H2]. apply all_pairs_keys_nodup in H1.
+  apply str_list_eqb_eq in H3. rewrite forallb_forall in H2. split.
+  - intros k d Hk. apply sget_In in Hk. specialize (H2 _ Hk). cbn [fst snd] in H2.
+    apply andb_true_iff in H2. destruct H2 as [Ha Hb]. apply Nat.ltb_lt in Hb. auto.
+  - intros d Hd.
+    exists (sort_str (filter (fun k => fst (first_role lower cs k)) (keys_of dict d))),
+           (sort_str (filter (fun k => snd (first_role lower cs k)) (keys_of dict d))).
+    split.
+    { rewrite H3 at 1. rewrite (nth_indep _ [] (spec_description lower false cs dict 0)) by (rewrite map_length, seq_length; assumption).
+      rewrite map_nth, seq_nth by assumption. reflexivity. }
+    split; [apply sort_str_sorted|]. split; [apply sort_str_sorted|].
+    split; intros k; unfold sort_str; rewrite isort_In, filter_In, (keys_of_In dict d k H1); reflexivity.
+Qed.
+
 (* case-insensitive equality of names and e-mails gives equal signatures for the concrete lower-casing *)
 Lemma lower_ascii_sig c1 c2 :
   lower_ascii (c_name c1) = lower_ascii (c_name c2) -> lower_ascii (c_email c1) = lower_ascii (c_email c2) ->
